@@ -71,6 +71,45 @@ def poison_uninitialised_memory():
 poison_uninitialised_memory()
 
 
+def snapshots_in_other_layouts():
+    """every `SingleSnapshot` built in the harness process (by a harness or by the library's own readers) holds its positions in one of
+    the memory layouts of `guise` (C order, Fortran order, reversed axes, strided view) — same numbers, chosen from the contents.
+    Nothing in the library may depend on the strides of a position array.  PMS_NO_GUISE=1 switches it off."""
+    if os.environ.get("PMS_NO_GUISE") == "1":
+        return
+    try:
+        from PyMatterSim.reader import reader_utils as ru
+    except Exception:          # noqa: BLE001 — the package does not import on this tree: the checks will say so
+        return
+    base = ru.SingleSnapshot
+    if getattr(base, "_pms_guise", False):
+        return
+    import dataclasses
+    names = [f.name for f in dataclasses.fields(base)]
+
+    class SingleSnapshot(base):
+        _pms_guise = True
+
+        def __init__(self, *a, **k):
+            vals = dict(zip(names, a))
+            vals.update(k)
+            if "positions" in vals:
+                try:
+                    import numpy as np
+                    if isinstance(vals["positions"], np.ndarray) and vals["positions"].ndim == 2:
+                        vals["positions"] = guise(vals["positions"], "snapshot")
+                except Exception:      # noqa: BLE001
+                    pass
+            base.__init__(self, **vals)
+    SingleSnapshot.__name__ = base.__name__
+    SingleSnapshot.__qualname__ = base.__qualname__
+    SingleSnapshot.__module__ = base.__module__
+    ru.SingleSnapshot = SingleSnapshot
+    for modname, mod in list(sys.modules.items()):
+        if modname.startswith("PyMatterSim.") and getattr(mod, "SingleSnapshot", None) is base:
+            mod.SingleSnapshot = SingleSnapshot
+
+
 class Infra(Exception):
     """infrastructure trouble: exit 2, never a VIOLATION"""
 
@@ -752,3 +791,6 @@ def main(spec, argv):
         except Exception:
             pass
         return 2
+
+
+snapshots_in_other_layouts()
